@@ -7,97 +7,147 @@ constants: no theorem can mention what it returns.  This file is the same reader
 (structural recursion on a nesting fuel that the depth cap of the original, 64, never exhausts; the `for`
 loops as `mapM`): the same checks in the same order with the same messages, the same result.  The driver
 family `fspd` compares the two readings of the mirrored real image after every operation
-(`Drv/FsProdos.lean`, item `readers-agree`), so that theorems about `ProdosT.read` speak about the reading the
+(`Drv/FsProdos.lean`, item `readers`), so that theorems about `ProdosT.read` speak about the reading the
 file-system group's tie uses.  The helpers that are not recursive (`dirChain`, `indexEntries`, `readData`,
 `bitmapFree`, …) are shared.
+
+The walk is *located*: with every record it returns the directory block and the slot (1-based, as a2kit's
+`EntryLocation`) of the entry the record was made from; `read` forgets the locations.  Theorems use them to say
+which record an operation on a given entry changes.
 -/
 namespace A2Verif.Read.ProdosT
 open A2Verif.Read.Prodos (entryAt dirChain idxPtr indexEntries readData trimName bitmapFree)
 
-/-- the entries of one block of a directory chain (the header slot of the key block is skipped) -/
-def blockEntries (r : Raw) (key epb elen b : Nat) : Except String (List Bytes) := do
-  let blk ← r.unit b "directory-block"
-  let ks := if b = key then (List.range epb).drop 1 else List.range epb
-  pure (ks.map (fun k => entryAt blk k elen))
+/-- a record with the location (block, slot) of its directory entry -/
+abbrev LRec := FileRec × Nat × Nat
+
+/-- the entries of one block of a directory chain with their slots (the header slot of the key block is skipped) -/
+def blockEntries (r : Raw) (key epb elen b : Nat) : Except String (List (Bytes × Nat × Nat)) :=
+  match r.unit b "directory-block" with
+  | .error e => .error e
+  | .ok blk =>
+    let ks := if b = key then (List.range epb).drop 1 else List.range epb
+    .ok (ks.map (fun k => (entryAt blk k elen, b, k + 1)))
 
 /-- chunks and owned blocks under one index block of a tree file -/
-def treeIndex (r : Raw) (total : Nat) (kib : Nat × Nat) : Except String (List (Nat × Bytes) × List Nat) := do
-  let (k, ib) := kib
-  if ib ≥ total then throw "index-pointer-out-of-range"
-  let blk ← r.unit ib "index-block"
-  let ps := indexEntries blk (256 * k)
-  let ds ← readData r total ps
-  pure (ds, ib :: ps.map (·.2))
+def treeIndex (r : Raw) (total : Nat) (kib : Nat × Nat) : Except String (List (Nat × Bytes) × List Nat) :=
+  if kib.2 ≥ total then .error "index-pointer-out-of-range"
+  else match r.unit kib.2 "index-block" with
+    | .error e => .error e
+    | .ok blk =>
+      let ps := indexEntries blk (256 * kib.1)
+      match readData r total ps with
+      | .error e => .error e
+      | .ok ds => .ok (ds, kib.2 :: ps.map (·.2))
 
-/-- one directory entry; `sub` reads the sub-directory with the given key block and path (one level deeper) -/
-def readEntryWith (sub : Nat → Bytes → Except String (List FileRec × List Nat)) (r : Raw) (total : Nat) (e : Bytes) (pfx : Bytes) :
-    Except String (List FileRec) := do
-  let st := e.getD 0 0 / 16
+/-- the part of a record that is read off the entry alone -/
+def baseRec (e : Bytes) (pfx : Bytes) : FileRec :=
   let name := trimName e
-  let path := if pfx.isEmpty then name else pfx ++ [47] ++ name
+  let acc := e.getD 0x1E 0
+  { path := if pfx.isEmpty then name else pfx ++ [47] ++ name, ftype := e.getD 0x10 0, aux := le16 e 0x1F, access := acc,
+    locked := (acc / 2) % 2 = 0 ∨ (acc / 64) % 2 = 0 ∨ (acc / 128) % 2 = 0, eof := le24 e 0x15 }
+
+/-- a file entry (storage 1, 2, 3): chunks and owned blocks -/
+def readFile (r : Raw) (total : Nat) (e : Bytes) (pfx : Bytes) : Except String FileRec :=
+  let st := e.getD 0 0 / 16
   let key := le16 e 0x11
   let used := le16 e 0x13
-  let acc := e.getD 0x1E 0
-  let base : FileRec := { path := path, ftype := e.getD 0x10 0, aux := le16 e 0x1F, access := acc,
-                          locked := (acc / 2) % 2 = 0 ∨ (acc / 64) % 2 = 0 ∨ (acc / 128) % 2 = 0, eof := le24 e 0x15 }
-  if key = 0 ∨ key ≥ total then throw "key-pointer-out-of-range"
-  if st = 1 then do
-    let d ← r.unit key "data-block"
-    if used ≠ 1 then throw "blocks-used-differs-from-reachable"
-    pure [{ base with chunks := [(0, d)], owned := [key] }]
-  else if st = 2 then do
-    let ib ← r.unit key "index-block"
-    let ps := indexEntries ib 0
-    let cs ← readData r total ps
-    if used ≠ 1 + ps.length then throw "blocks-used-differs-from-reachable"
-    pure [{ base with chunks := cs, owned := key :: ps.map (·.2) }]
-  else if st = 3 then do
-    let mb ← r.unit key "master-index-block"
-    let idxs := (List.range 128).filterMap (fun k => let p := idxPtr mb k; if p = 0 then none else some (k, p))
-    let parts ← idxs.mapM (treeIndex r total)
-    let cs := (parts.map (·.1)).flatten
-    let own := key :: (parts.map (·.2)).flatten
-    if used ≠ own.length then throw "blocks-used-differs-from-reachable"
-    pure [{ base with chunks := cs, owned := own }]
-  else if st = 0xD then do
-    let (fs, chain) ← sub key path
-    if used ≠ chain.length then throw "blocks-used-differs-from-reachable"
-    pure ({ base with isDir := true, owned := chain, eof := 0, locked := false } :: fs)
-  else throw "unknown-storage-type"
+  let base := baseRec e pfx
+  if st = 1 then
+    match r.unit key "data-block" with
+    | .error x => .error x
+    | .ok d => if used ≠ 1 then .error "blocks-used-differs-from-reachable" else .ok { base with chunks := [(0, d)], owned := [key] }
+  else if st = 2 then
+    match r.unit key "index-block" with
+    | .error x => .error x
+    | .ok ib =>
+      let ps := indexEntries ib 0
+      match readData r total ps with
+      | .error x => .error x
+      | .ok cs =>
+        if used ≠ 1 + ps.length then .error "blocks-used-differs-from-reachable"
+        else .ok { base with chunks := cs, owned := key :: ps.map (·.2) }
+  else
+    match r.unit key "master-index-block" with
+    | .error x => .error x
+    | .ok mb =>
+      let idxs := (List.range 128).filterMap (fun k => let p := idxPtr mb k; if p = 0 then none else some (k, p))
+      match idxs.mapM (treeIndex r total) with
+      | .error x => .error x
+      | .ok parts =>
+        let cs := (parts.map (·.1)).flatten
+        let own := key :: (parts.map (·.2)).flatten
+        if used ≠ own.length then .error "blocks-used-differs-from-reachable" else .ok { base with chunks := cs, owned := own }
+
+/-- one directory entry at location `(b, k)`; `sub` reads the sub-directory with the given key block and path (one
+level deeper) -/
+def readEntryWith (sub : Nat → Bytes → Except String (List LRec × List Nat)) (r : Raw) (total : Nat)
+    (pfx : Bytes) (ebk : Bytes × Nat × Nat) : Except String (List LRec) :=
+  let e := ebk.1
+  let st := e.getD 0 0 / 16
+  let key := le16 e 0x11
+  if key = 0 ∨ key ≥ total then .error "key-pointer-out-of-range"
+  else if st = 1 ∨ st = 2 ∨ st = 3 then
+    match readFile r total e pfx with
+    | .error x => .error x
+    | .ok f => .ok [(f, ebk.2)]
+  else if st = 0xD then
+    match sub key (baseRec e pfx).path with
+    | .error x => .error x
+    | .ok (fs, chain) =>
+      if le16 e 0x13 ≠ chain.length then .error "blocks-used-differs-from-reachable"
+      else .ok (({ baseRec e pfx with isDir := true, owned := chain, eof := 0, locked := false }, ebk.2) :: fs)
+  else .error "unknown-storage-type"
 
 /-- files of the directory whose key block is `key`; `pfx` is the path so far; the first argument is the
 nesting fuel -/
-def readDir : Nat → Raw → Nat → Nat → Bytes → Nat → Except String (List FileRec × List Nat)
-  | 0, _, _, _, _, _ => throw "directory-nesting-too-deep"
-  | fuel + 1, r, total, key, pfx, depth => do
-    if depth > 64 then throw "directory-nesting-too-deep"
-    let chain ← dirChain r total 1000 key []
-    let keyBlk ← r.unit key "directory-key-block"
-    let elen := keyBlk.getD (4 + 0x1F) 0
-    let epb := keyBlk.getD (4 + 0x20) 0
-    if elen < 0x27 ∨ epb = 0 ∨ 4 + elen * epb > 512 then throw "directory-entry-geometry"
-    let fileCount := le16 keyBlk (4 + 0x21)
-    let ents ← chain.mapM (blockEntries r key epb elen)
-    let active := ents.flatten.filter (fun e => e.getD 0 0 / 16 ≠ 0)
-    if active.length ≠ fileCount then throw "file-count-differs-from-active-entries"
-    let recs ← active.mapM (fun e => readEntryWith (fun k p => readDir fuel r total k p (depth + 1)) r total e pfx)
-    pure (recs.flatten, chain)
+def readDir : Nat → Raw → Nat → Nat → Bytes → Nat → Except String (List LRec × List Nat)
+  | 0, _, _, _, _, _ => .error "directory-nesting-too-deep"
+  | fuel + 1, r, total, key, pfx, depth =>
+    if depth > 64 then .error "directory-nesting-too-deep"
+    else match dirChain r total 1000 key [] with
+    | .error x => .error x
+    | .ok chain =>
+      match r.unit key "directory-key-block" with
+      | .error x => .error x
+      | .ok keyBlk =>
+        let elen := keyBlk.getD (4 + 0x1F) 0
+        let epb := keyBlk.getD (4 + 0x20) 0
+        if elen < 0x27 ∨ epb = 0 ∨ 4 + elen * epb > 512 then .error "directory-entry-geometry"
+        else match chain.mapM (blockEntries r key epb elen) with
+        | .error x => .error x
+        | .ok ents =>
+          let active := ents.flatten.filter (fun e => e.1.getD 0 0 / 16 ≠ 0)
+          if active.length ≠ le16 keyBlk (4 + 0x21) then .error "file-count-differs-from-active-entries"
+          else match active.mapM (readEntryWith (fun k p => readDir fuel r total k p (depth + 1)) r total pfx) with
+          | .error x => .error x
+          | .ok recs => .ok (recs.flatten, chain)
 
 /-- nesting fuel: the depth cap (64) stops the walk first -/
 def nestingFuel : Nat := 70
 
-def read (r : Raw) : Except String Vol := do
-  let keyBlk ← r.unit 2 "volume-key-block"
-  if keyBlk.getD 4 0 / 16 ≠ 0xF then throw "volume-header-storage-type"
-  let bm := le16 keyBlk (4 + 0x23)
-  let total := le16 keyBlk (4 + 0x25)
-  if total > r.count ∨ total < 6 then throw "total-blocks-out-of-range"
-  let nbm := (total + 4095) / 4096
-  if bm < 3 ∨ bm + nbm > total then throw "bitmap-pointer-out-of-range"
-  let (files, chain) ← readDir nestingFuel r total 2 [] 0
-  let freeU ← bitmapFree r bm total
-  let sys := [0, 1] ++ chain ++ (List.range nbm).map (· + bm)
-  pure { lo := 0, hi := total, sys := sys, files := files, freeUnits := freeU,
-         label := slice keyBlk 5 (keyBlk.getD 4 0 % 16) }
+/-- the located reading of the volume directory tree -/
+def readTree (r : Raw) (total : Nat) : Except String (List LRec × List Nat) := readDir nestingFuel r total 2 [] 0
+
+def read (r : Raw) : Except String Vol :=
+  match r.unit 2 "volume-key-block" with
+  | .error x => .error x
+  | .ok keyBlk =>
+    if keyBlk.getD 4 0 / 16 ≠ 0xF then .error "volume-header-storage-type"
+    else
+      let bm := le16 keyBlk (4 + 0x23)
+      let total := le16 keyBlk (4 + 0x25)
+      if total > r.count ∨ total < 6 then .error "total-blocks-out-of-range"
+      else
+        let nbm := (total + 4095) / 4096
+        if bm < 3 ∨ bm + nbm > total then .error "bitmap-pointer-out-of-range"
+        else match readTree r total with
+        | .error x => .error x
+        | .ok (files, chain) =>
+          match bitmapFree r bm total with
+          | .error x => .error x
+          | .ok freeU =>
+            .ok { lo := 0, hi := total, sys := [0, 1] ++ chain ++ (List.range nbm).map (· + bm), files := files.map (·.1),
+                  freeUnits := freeU, label := slice keyBlk 5 (keyBlk.getD 4 0 % 16) }
 
 end A2Verif.Read.ProdosT
